@@ -1,4 +1,6 @@
 // C07 harness, generator (see harness/C07.cpp for the operations)
+// generator-only code: no optimisation (compile time)
+#pragma GCC optimize("O0")
 #include "C07_common.h"
 #include <cstdarg>
 
@@ -411,13 +413,18 @@ void gen_wrapper(rng &r, const std::string &tier)
         for (int bi = 0; bi < 2; bi++)
             for (uint64_t lo = part * span; lo < (part + 1) * span; lo += CH)
                 P("sweep %s %u %016llx %llu\n", KNAME[K2[ki]], B2[bi], (unsigned long long)extend(lo, 32, K2[ki] == I32), (unsigned long long)CH);
-    // round 3: bases 2, 8 and 36 strided over the whole 32-bit space: in every 8th window of 2^22 values the
-    // seed's own 2^18 consecutive ones (the 16 seeds together: 1/8 of the space per kind and base, 2^29 values,
-    // every residue class of the window offset)
-    static const unsigned B3[3] = {2u, 8u, 36u};
+    // round 3b: base 8 and base 36 - EVERY 32-bit value (signed and unsigned), like base 10 and 16 above
+    static const unsigned B3[2] = {8u, 36u};
     for (int ki = 0; ki < 2; ki++)
-        for (int bi = 0; bi < 3; bi++)
-            for (uint64_t win = 0; win < (1ull << 32); win += (1ull << 22))
-                if ((win >> 22) % 8 == (g_seed / NPART + bi + 3 * ki) % 8)
-                    P("sweep %s %u %016llx %llu\n", KNAME[K2[ki]], B3[bi], (unsigned long long)extend(win + part * CH, 32, K2[ki] == I32), (unsigned long long)CH);
+        for (int bi = 0; bi < 2; bi++)
+            for (uint64_t lo = part * span; lo < (part + 1) * span; lo += CH)
+                P("sweep %s %u %016llx %llu\n", KNAME[K2[ki]], B3[bi], (unsigned long long)extend(lo, 32, K2[ki] == I32), (unsigned long long)CH);
+    // base 2 (32-character texts, three times the cost per value): every second window of 2^22 values, in each the
+    // seed's own 2^18 consecutive ones - half of the 32-bit space per kind over the 16 seeds (round 3: one eighth);
+    // which half depends on VERIF_SEED (bin/check runs the seeds VERIF_SEED*1000 + 0..15): seeds 1 and 2 together
+    // cover every 32-bit value in base 2 as well
+    for (int ki = 0; ki < 2; ki++)
+        for (uint64_t win = 0; win < (1ull << 32); win += (1ull << 22))
+            if ((win >> 22) % 2 == (g_seed / 1000 + ki) % 2)
+                P("sweep %s 2 %016llx %llu\n", KNAME[K2[ki]], (unsigned long long)extend(win + part * CH, 32, K2[ki] == I32), (unsigned long long)CH);
 }
